@@ -27,6 +27,37 @@ mod verif_kani_core {
         true
     }
 
+    // ---------- generators and the dense reading of a CSC matrix ----------
+    // a canonical M x N matrix with NNZ stored entries: arbitrary structure (constrained by wf), arbitrary non-NaN values
+    pub(crate) fn any_canonical<const N1: usize, const NNZ: usize>(m: usize, n: usize) -> CscMatrix<f64> {
+        let colptr: [usize; N1] = kani::any();
+        let rowval: [usize; NNZ] = kani::any();
+        let nzval: [f64; NNZ] = kani::any();
+        let mut k = 0;
+        while k < NNZ { kani::assume(!nzval[k].is_nan()); k += 1; }
+        let a = CscMatrix::<f64> { m, n, colptr: colptr.to_vec(), rowval: rowval.to_vec(), nzval: nzval.to_vec() };
+        kani::assume(wf(&a));
+        a
+    }
+    // dense meaning: entry (r,c) = sum of the stored values at (r,c) in storage order (0.0 if none)
+    pub(crate) fn dense_at(a: &CscMatrix<f64>, r: usize, c: usize) -> f64 {
+        let mut acc = 0.0;
+        let mut seen = false;
+        let mut k = a.colptr[c];
+        while k < a.colptr[c + 1] {
+            if a.rowval[k] == r {
+                if seen { acc = acc + a.nzval[k]; } else { acc = a.nzval[k]; seen = true; }
+            }
+            k += 1;
+        }
+        acc
+    }
+    pub(crate) fn stored_at(a: &CscMatrix<f64>, r: usize, c: usize) -> bool {
+        let mut k = a.colptr[c];
+        while k < a.colptr[c + 1] { if a.rowval[k] == r { return true; } k += 1; }
+        false
+    }
+
     // bounded: 2x2, 2 stored entries, arbitrary colptr / rowval contents
     #[kani::proof]
     #[kani::unwind(5)]
@@ -40,4 +71,160 @@ mod verif_kani_core {
         kani::cover!(!ok);
         assert!(ok == wf(&a));
     }
+
+    // C16 get_entry / set_entry / index_to_coord (bounded: every canonical 2x2 matrix with 2 stored entries)
+    #[kani::proof]
+    #[kani::unwind(6)]
+    fn get_set_entry_dense_2x2_nnz2() {
+        let mut a = any_canonical::<3, 2>(2, 2);
+        let r: usize = kani::any(); let c: usize = kani::any();
+        kani::assume(r < 2 && c < 2);
+        // get_entry is the dense lookup; Some exactly for stored positions
+        let g = a.get_entry((r, c));
+        assert!(g.is_some() == stored_at(&a, r, c));
+        assert!(g.unwrap_or(0.0) == dense_at(&a, r, c));
+        // index_to_coord inverts the storage position
+        let idx: usize = kani::any();
+        kani::assume(idx < 2);
+        let (ri, ci) = a.index_to_coord(idx);
+        assert!(ri == a.rowval[idx] && a.colptr[ci] <= idx && idx < a.colptr[ci + 1]);
+        // set_entry changes exactly one cell of the dense matrix and keeps the encoding canonical
+        let before = [[dense_at(&a, 0, 0), dense_at(&a, 0, 1)], [dense_at(&a, 1, 0), dense_at(&a, 1, 1)]];
+        let v: f64 = kani::any();
+        kani::assume(!v.is_nan());
+        let was_stored = stored_at(&a, r, c);
+        a.set_entry((r, c), v);
+        kani::cover!(!was_stored && v != 0.0);
+        kani::cover!(was_stored);
+        assert!(wf(&a));
+        let mut i = 0;
+        while i < 2 {
+            let mut j = 0;
+            while j < 2 {
+                if i == r && j == c { assert!(dense_at(&a, i, j) == v); } else { assert!(dense_at(&a, i, j) == before[i][j]); }
+                j += 1;
+            }
+            i += 1;
+        }
+        assert!(a.nnz() == if was_stored || v == 0.0 { 2 } else { 3 });
+        std::mem::forget(a);
+    }
+
+    fn dense2(a: &CscMatrix<f64>) -> [[f64; 2]; 2] {
+        [[dense_at(a, 0, 0), dense_at(a, 0, 1)], [dense_at(a, 1, 0), dense_at(a, 1, 1)]]
+    }
+    // the p-th sparsity pattern of a 2x2 matrix (bit 0: (0,0), bit 1: (1,0), bit 2: (0,1), bit 3: (1,1)) with
+    // symbolic non-NaN values: structures are enumerated concretely (symbolic structures exhaust CBMC), values are symbolic
+    fn pattern_2x2(p: usize) -> CscMatrix<f64> {
+        let mut colptr = vec![0usize; 3];
+        let mut rowval: Vec<usize> = Vec::new();
+        let mut nzval: Vec<f64> = Vec::new();
+        let mut bit = 0;
+        while bit < 4 {
+            if (p >> bit) & 1 == 1 {
+                let v: f64 = kani::any();
+                kani::assume(!v.is_nan());
+                rowval.push(bit % 2);
+                nzval.push(v);
+                let col = bit / 2;
+                let mut cc = col + 1;
+                while cc < 3 { colptr[cc] += 1; cc += 1; }
+            }
+            bit += 1;
+        }
+        CscMatrix::<f64> { m: 2, n: 2, colptr, rowval, nzval }
+    }
+    fn same_dense(a: &[[f64; 2]; 2], b: &[[f64; 2]; 2]) -> bool {
+        a[0][0] == b[0][0] && a[0][1] == b[0][1] && a[1][0] == b[1][0] && a[1][1] == b[1][1]
+    }
+
+    // C16 is_triu / to_triu
+    #[kani::proof]
+    #[kani::unwind(18)]
+    fn triu_dense_2x2_all_patterns() {
+        let mut p = 0;
+        while p < 16 {
+            let a = pattern_2x2(p);
+            let d = dense2(&a);
+            assert!(a.is_triu() == !stored_at(&a, 1, 0));
+            let t = a.to_triu();
+            assert!(wf(&t) && t.is_triu());
+            assert!(dense_at(&t, 0, 0) == d[0][0] && dense_at(&t, 0, 1) == d[0][1] && dense_at(&t, 1, 1) == d[1][1] && !stored_at(&t, 1, 0));
+            assert!(stored_at(&t, 0, 1) == stored_at(&a, 0, 1) && stored_at(&t, 0, 0) == stored_at(&a, 0, 0) && stored_at(&t, 1, 1) == stored_at(&a, 1, 1));
+            std::mem::forget(a); std::mem::forget(t);
+            p += 1;
+        }
+    }
+    // C16 transpose
+    #[kani::proof]
+    #[kani::unwind(18)]
+    fn transpose_dense_2x2_all_patterns() {
+        let mut p = 0;
+        while p < 16 {
+            let a = pattern_2x2(p);
+            let d = dense2(&a);
+            let at: CscMatrix<f64> = a.t().into();
+            assert!(wf(&at) && at.m == 2 && at.n == 2);
+            assert!(dense_at(&at, 0, 0) == d[0][0] && dense_at(&at, 1, 0) == d[0][1] && dense_at(&at, 0, 1) == d[1][0] && dense_at(&at, 1, 1) == d[1][1]);
+            assert!(stored_at(&at, 1, 0) == stored_at(&a, 0, 1) && stored_at(&at, 0, 1) == stored_at(&a, 1, 0));
+            std::mem::forget(a); std::mem::forget(at);
+            p += 1;
+        }
+    }
+    // C16 select_rows (bounded: 16 patterns x 4 row masks, all concrete; symbolic values)
+    #[kani::proof]
+    #[kani::unwind(18)]
+    fn select_rows_dense_2x2_all_patterns() {
+        let mut p = 0;
+        while p < 16 {
+            let mut mask = 0;
+            while mask < 4 {
+                let a = pattern_2x2(p);
+                let d = dense2(&a);
+                let keep0 = mask & 1 == 1; let keep1 = mask & 2 == 2;
+                let sel = a.select_rows(&vec![keep0, keep1]);
+                assert!(wf(&sel) && sel.n == 2 && sel.m == (keep0 as usize) + (keep1 as usize));
+                if keep0 { assert!(dense_at(&sel, 0, 0) == d[0][0] && dense_at(&sel, 0, 1) == d[0][1]); }
+                if keep1 { let rr = keep0 as usize; assert!(dense_at(&sel, rr, 0) == d[1][0] && dense_at(&sel, rr, 1) == d[1][1]); }
+                std::mem::forget(a); std::mem::forget(sel);
+                mask += 1;
+            }
+            p += 1;
+        }
+    }
+
+    // C16 construction from unsorted, duplicated triplets: concrete positions (sorting symbolic keys exhausts CBMC),
+    // symbolic finite values; duplicates are summed left to right in input order
+    fn triplets_case(i: [usize; 4], j: [usize; 4]) {
+        let v: [f64; 4] = kani::any();
+        kani::assume(v[0].is_finite() && v[1].is_finite() && v[2].is_finite() && v[3].is_finite());
+        let a = CscMatrix::new_from_triplets(2, 2, i.to_vec(), j.to_vec(), v.to_vec());
+        assert!(wf(&a));
+        let mut r = 0;
+        while r < 2 {
+            let mut c = 0;
+            while c < 2 {
+                let mut acc = 0.0; let mut seen = false; let mut k = 0;
+                while k < 4 {
+                    if i[k] == r && j[k] == c { if seen { acc = acc + v[k]; } else { acc = v[k]; seen = true; } }
+                    k += 1;
+                }
+                assert!(stored_at(&a, r, c) == seen);
+                let got = dense_at(&a, r, c);
+                assert!(got == acc || (got.is_nan() && acc.is_nan()));
+                c += 1;
+            }
+            r += 1;
+        }
+        std::mem::forget(a);
+    }
+    #[kani::proof]
+    #[kani::unwind(9)]
+    fn new_from_triplets_four_duplicates() { triplets_case([1, 1, 1, 1], [0, 0, 0, 0]); }
+    #[kani::proof]
+    #[kani::unwind(9)]
+    fn new_from_triplets_three_plus_one_unsorted() { triplets_case([0, 1, 0, 0], [1, 0, 1, 1]); }
+    #[kani::proof]
+    #[kani::unwind(9)]
+    fn new_from_triplets_two_pairs_reversed() { triplets_case([1, 0, 1, 0], [1, 1, 1, 1]); }
 }
